@@ -106,6 +106,15 @@ def coq_make(target: str | None = None, timeout=1500):
         return sh(f"timeout {timeout} make -j{JOBS} {tgt}", timeout + 30, cwd=COQ)
 
 
+def coqchk_step(pid: str):
+    """independent re-check of Properties/<pid>.vo and everything it depends on"""
+    rc, out = sh(f"timeout 1500 coqchk -o -silent -Q theories Tola Tola.Properties.{pid}", 1560, cwd=COQ)
+    m = re.search(r"\* Axioms:(.*?)\n\s*\n", out, re.S)
+    axioms = " ".join(m.group(1).split()) if m else "?"
+    ok = rc == 0 and "<none>" in axioms and "type-in-type: <none>" in " ".join(out.split())
+    return {"ok": ok, "rc": rc, "axioms": axioms, "summary": " ".join(out.split())[-400:]}
+
+
 def proof_step(pid: str):
     """Re-check Properties/<pid>.v (its dependencies through make) and collect
     the Print Assumptions block of every property theorem."""
